@@ -23,6 +23,34 @@ def block_of(es):
     return out + [0]
 
 
+# what the metadata macros of port-sugar.h are documented to produce for the ports of mmacro::M (harness/tree_driver.cpp), in order:
+# rProp(x) -> ':x'; rMap(k, v) -> ':k=v'; rLinear / rLog(a, b) -> min, max, scale; rLogWithLogmin adds logmin before the scale; rDefault -> default;
+# rPresets(v0, v1, ..) -> 'default 0', 'default 1', ..; rDefaultDepends -> 'default depends'; rDepends(a, b) -> depends='a,b,'; rOptions(..) -> 'map 0', ..;
+# rShort -> shortname; rEnabledBy -> 'enabled by'; the last macro argument -> documentation; each port macro contributes its own leading entries
+MACRO_PORTS = [
+    ("self:", [("internal", None), ("class", "M"), ("enabled by", "t"), ("documentation", "port metadata")]),
+    ("a::i", [("parameter", None), ("min", "0"), ("max", "127"), ("scale", "linear"), ("default", "5"), ("shortname", "vol"), ("documentation", "volume")]),
+    ("f::f", [("parameter", None), ("min", "0.01"), ("max", "100"), ("scale", "logarithmic"), ("default depends", "a"), ("default 0", "1.0"), ("default 1", "2.5"), ("default 2", "4"),
+              ("documentation", "freq: in Hz = cycles")]),
+    ("o::i:c:S", [("parameter", None), ("enumerated", None), ("map 0", "sine"), ("map 1", "saw"), ("map 2", "white noise"), ("default", "saw"), ("no learn", None), ("documentation", "shape")]),
+    ("t::T:F", [("parameter", None), ("default", "true"), ("internal", None), ("unit", "Hz"), ("documentation", "a=b:c")]),
+    ("s::s", [("length", "8"), ("parameter", None), ("default", '"abc"'), ("documentation", "str")]),
+    ("arr#3::i", [("parameter", None), ("min", "0"), ("max", "10"), ("scale", "linear"), ("default", "[1 2 3]"), ("depends", "a,t,"), ("documentation", "array")]),
+    ("act:", [("alias", None), ("documentation", "")]),
+    ("a::i", [("parameter", None), ("min", "0"), ("max", "100"), ("logmin", "0.5"), ("scale", "logarithmic"), ("no defaults", None), ("documentation", "x")]),
+]
+
+
+def macro_inputs(ctx):
+    """the metadata of ports written with the real macros: raw bytes from the driver, entries from the table above"""
+    ctx.driver("tree_driver", "asan", ["metamacro", "/dev/null", ctx.path("macro.ndjson")])
+    recs = ctx.read_ndjson(ctx.path("macro.ndjson"))
+    if [bytes(r["name"]).decode("latin1") for r in recs] != [n for n, _ in MACRO_PORTS]:
+        raise core.Broken("the macro-built port table of the driver and MACRO_PORTS differ: %s" % [bytes(r["name"]).decode("latin1") for r in recs])
+    os.remove(ctx.path("macro.ndjson"))
+    return [dict(es=[dict(key=[ord(c) for c in k], has=v is not None, val=[ord(c) for c in (v or "")]) for k, v in es], block=r["block"]) for r, (_, es) in zip(recs, MACRO_PORTS)]
+
+
 def judge(ctx, log):
     rej = ctx.validate("PortTreeTrace", "PortTreeTrace.cfg", log)
     n = 0
@@ -41,7 +69,7 @@ def judge(ctx, log):
 
 def run(ctx):
     ctx.rule = ("every entry list of MetadataGen (<= MaxEntries entries; 24 keys, 10 values + valueless) and seeded random lists of 1..8 entries with "
-                "longer keys/values; evaluations = blocks; non-trivial = block with >= 2 entries")
+                "longer keys/values; the metadata of nine ports written with the real macros (raw bytes against the documented expansion); evaluations = blocks; non-trivial = block with >= 2 entries")
     ctx.assumptions = ["keys are non-empty, contain no NUL and do not begin with ':' (Port::meta() and MetaContainer::begin() each strip one ':')"]
     if ctx.replay:
         case = json.load(open(ctx.replay))["case"]
@@ -65,7 +93,9 @@ def run(ctx):
             v = "".join(rng.choice(ALPHA) for _ in range(rng.randint(0, 6))) if has else ""
             es.append(dict(key=[ord(c) for c in k], has=has, val=[ord(c) for c in v]))
         rnd.append(dict(es=es, block=block_of(es)))
-    allin = vec + rnd
+    mac = macro_inputs(ctx)
+    ctx.notes["macro_built_blocks"] = len(mac)
+    allin = mac + vec + rnd
     p = ctx.write_ndjson("in.ndjson", allin)
     ctx.driver("tree_driver", "asan", ["meta", p, ctx.path("log.ndjson")])
     n = judge(ctx, ctx.path("log.ndjson"))
